@@ -60,6 +60,53 @@ fn main() {
             let g = src::unhex(&args[3]).unwrap_or_else(|| usage());
             exit(replay(&args[2], &g, "<cmdline>"));
         }
+        "replay-fuzz" => {
+            // re-execute a libFuzzer artifact through this (release) build: map target bytes -> (property, genome)
+            if args.len() < 4 {
+                usage();
+            }
+            let data = std::fs::read(&args[3]).unwrap_or_default();
+            let (id, g): (&str, Vec<u8>) = match args[2].as_str() {
+                "decoders" => {
+                    if data.is_empty() {
+                        exit(0);
+                    }
+                    let d = (data[0] % 6) as usize;
+                    let body = &data[1..];
+                    let mut g = vec![0xFF, ((d * 256usize).div_ceil(6)) as u8];
+                    g.extend_from_slice(&(body.len().min(300) as u16).to_be_bytes());
+                    g.extend_from_slice(&body[..body.len().min(300)]);
+                    ("C08", g)
+                }
+                "fieldconv" => ("C13", data),
+                "fieldops" => {
+                    if data.is_empty() {
+                        exit(0);
+                    }
+                    (["C06", "C07", "C12", "C14"][(data[0] & 3) as usize], data[1..].to_vec())
+                }
+                "program" => ("C16", data),
+                "tower" => ("C17", data),
+                "profile" => ("C18", data),
+                _ => usage(),
+            };
+            // write a regular replay file so that `run.sh replay` works on it
+            let path = format!("{}.replay.json", args[3]);
+            let v = json!({"property": id, "genome": src::hex(&g), "origin": format!("libFuzzer artifact {} of target {}", args[3], args[2])});
+            let _ = std::fs::write(&path, serde_json::to_string_pretty(&v).unwrap());
+            exit(replay(id, &g, &path));
+        }
+        "fuzz-seeds" => {
+            if args.len() < 4 {
+                usage();
+            }
+            let seeds = sm9verif::fuzzglue::seeds(&args[2]);
+            std::fs::create_dir_all(&args[3]).unwrap();
+            for (i, sd) in seeds.iter().enumerate() {
+                std::fs::write(format!("{}/seed-{:04}", args[3], i), sd).unwrap();
+            }
+            println!("{} seeds written to {}", seeds.len(), args[3]);
+        }
         "serve" => {
             sm9verif::props::c18::serve();
         }
@@ -96,7 +143,7 @@ fn replay(id: &str, g: &[u8], path: &str) -> i32 {
         }
     };
     runner::silence_panics();
-    let ctx = Ctx { want_desc: true, tier: Tier::Quick };
+    let ctx = Ctx { want_desc: true, tier: Tier::Quick, fuzz: false };
     match runner::guarded(def.check, g, &ctx) {
         Ok(info) => {
             println!("replay {} [{}]: property holds on this case", def.id, profile_name());
@@ -208,8 +255,10 @@ fn run(id: &str, tier: Tier, child: bool) -> i32 {
         ev["violations"] = json!(1);
     }
     ev["wall_s"] = json!(t_total.elapsed().as_secs_f64());
-    let _ = std::fs::create_dir_all(format!("{}/evidence", runner::VERIF_ROOT));
-    let evp = format!("{}/evidence/{}.json", runner::VERIF_ROOT, def.id);
+    // VERIF_EVIDENCE_DIR is only used by the mutant-trial tooling so that trial runs do not overwrite real evidence
+    let evdir = std::env::var("VERIF_EVIDENCE_DIR").unwrap_or_else(|_| format!("{}/evidence", runner::VERIF_ROOT));
+    let _ = std::fs::create_dir_all(&evdir);
+    let evp = format!("{}/{}.json", evdir, def.id);
     if let Err(e) = std::fs::write(&evp, serde_json::to_string_pretty(&ev).unwrap()) {
         println!("INCONCLUSIVE: cannot write {}: {}", evp, e);
         return 2;
